@@ -8,7 +8,7 @@ from ..models import make_interp
 from ..tmplcheck import family_results, report
 from ._matchrules import is_addr_projection
 
-FLOORS = {"C07.P1.starts-at-address": 300, "C07.P1.ends-at-bar": 300, "C07.P2.separator-discipline": 1000,
+FLOORS = {"C07.Q.searched-stream-is-this-operations": 2, "C07.P1.starts-at-address": 300, "C07.P1.ends-at-bar": 300, "C07.P2.separator-discipline": 1000,
           "C07.P3.macro-wildcards": 1, "C07.P4.address-is-prefix-of-match": 2, "C07.P5.scan-starts-at-stream-start": 8}
 
 
@@ -93,6 +93,9 @@ def run(ctx) -> None:
                   f"addr={sorted(addr)} full={sorted(full)}",
                   "address-only value is M.group(0).split('::')[0] for the same match M whose group(0) is reported "
                   "in full-text mode")
+    # Q: the regex is searched in the stream of this operation's own listing (nothing carried over from an earlier operation)
+    from ._matchrules import stream_per_run
+    stream_per_run(ctx, "C07.Q.searched-stream-is-this-operations")
 
 
 def _shape(expr: str) -> str:
